@@ -19,12 +19,11 @@ import (
 // (initStoreAndStartSyncer, what setFirstAndStart calls) on a service that consists of a real go-header store and
 // the genesis only. It reports whether the store holds a head afterwards, and the error of the init path.
 //
-// What is REAL here: initStoreAndStartSyncer itself (the IsZero test, the genesis-proposer check, store.Init of the
-// real go-header store on the given datastore) and the store's Height().
-// What is NOT run and must be reproduced by the caller or is left out:
-//   - the exchange session's Validate() on the item: go-header calls it BEFORE the item gets here
-//     (p2p/session.go); initStoreAndStartSyncer relies on that, so the harness calls the library entry
-//     (New, UnmarshalBinary, Validate through the header.Header[H] interface) first and only then this hook;
+// What is REAL here: initStoreAndStartSyncer itself (the IsZero test, Validate() of the item, the genesis-proposer
+// check, store.Init of the real go-header store on the given datastore) and the store's Height().
+// The caller passes the item as Exchange.Get / GetByHeight return it: decoded (New + UnmarshalBinary), NOT
+// validated - go-header calls Validate() for gossip and exchange sessions only, not for that single request.
+// What is NOT run:
 //   - store.Start (the flush loop) - Init writes the head synchronously, nothing else of the store is used;
 //   - StartSyncer: the syncer is marked as started so that no syncer is needed; what the syncer does with later
 //     headers (Validate, Verify against the head) is exercised separately by the harness's library-entry ops.
